@@ -66,4 +66,34 @@ CLAIMS = {
         "note": "covers the platform-independent stream only (as the property says); Windows console API code is never executed here",
         "technique": "runtime monitoring: recording console writer + reference run model, exhaustive fault scripts",
     },
+    "C05": {
+        "text": "Everything a style can render is parsed and interpreted by independent VT and SGR models: exhaustive over effect sets and every colour value per slot, seeded random combinations, ~240 format-flag specs on a subset; Display, write_to and reset paths compared byte for byte.",
+        "design_ref": "7 C05, 8.4",
+        "note": "trusts refmodel::{vt,sgr}; underline codes read as independent flags",
+        "technique": RM,
+    },
+    "C10": {
+        "text": "Optimality and tie-breaking checked against an own distance/argmin for every explored (colour, palette); thorough tier enumerates all 2^24 RGB values for both targets and 6 palettes, quick tier a lattice plus near-candidate random colours.  All finite conversions exhaustive in both tiers.",
+        "design_ref": "7 C10, 3.3, 8.10",
+        "note": "the integer red-mean weights are taken as the specification of the metric",
+        "technique": RM + " (exhaustive over 2^24 colours in the thorough tier)",
+    },
+    "C11": {
+        "text": "Accept/reject, denotation, error variant and payload compared with an independent recogniser on exhaustive word combinations, hex near-misses (incl. signs and non-ASCII), single-edit mutations, seeded sentences and arbitrary Unicode; print/parse round trip for every expressible style sampled.",
+        "design_ref": "7 C11, 3.4, 8.6",
+        "note": "inputs whose meaning the statement leaves open are checked for panics only",
+        "technique": RM,
+    },
+    "C12": {
+        "text": "Result compared with an independent left-to-right SGR-list interpreter on exhaustive 1-3 code lists, extended-colour forms, seeded long lists with leading zeros and malformed inputs.",
+        "design_ref": "7 C12, 3.4, 8.6",
+        "note": "truncated extended-colour forms and signed numbers are checked for panics only",
+        "technique": RM,
+    },
+    "C13": {
+        "text": "The set laws are checked on all 16.7M pairs of effect sets and all single sets, the colour bijection on all 16/256 values; setter/getter/operator laws on seeded random styles.  The finite part of the statement is enumerated completely.",
+        "design_ref": "7 C13",
+        "note": "the model is a u16 bit set built from contains() observations only (no assumption on the bit layout)",
+        "technique": "runtime monitoring: exhaustive law checking against a bit-set model",
+    },
 }
